@@ -17,6 +17,7 @@ GEN = {
     "large:manyK": lambda rng: wc.gen_large(rng, "manyK"),
     "large:verylong": lambda rng: wc.gen_large(rng, "verylong"),
     "large:bigNW": lambda rng: wc.gen_large(rng, "bigNW"),
+    "large:manyrounds": lambda rng: wc.gen_large(rng, "manyrounds"),
     "joint:joint": lambda rng: wc.gen_joint(rng, "joint"),
     "joint:general": lambda rng: wc.gen_joint(rng, "general"),
     "joint:empty_final": lambda rng: wc.gen_joint(rng, "empty_final"),
@@ -49,7 +50,7 @@ def plan_e2e(seed, tag, mix, total, shards=None, extra=None, timeout=None, nwcap
     specs = []
     mix = dict(mix)
     tot_w = float(sum(mix.values()))
-    for name, frac in (("large:long", 0.025), ("large:manyK", 0.025), ("large:bigNW", 0.015), ("large:verylong", 0.015)):
+    for name, frac in (("large:long", 0.025), ("large:manyK", 0.025), ("large:bigNW", 0.015), ("large:verylong", 0.015), ("large:manyrounds", 0.025)):
         mix.setdefault(name, tot_w * frac)
     for i, n in enumerate(common.split_counts(total, shards)):
         if n == 0:
@@ -58,6 +59,10 @@ def plan_e2e(seed, tag, mix, total, shards=None, extra=None, timeout=None, nwcap
         if timeout:
             sp["timeout"] = timeout
         specs.append(sp)
+    # a fixed handful of runs whose first dozens of rounds are forced by the harness and that then finish on their own
+    # (behaviour that sets in only after many rounds), whatever the random mix drew
+    specs.append(dict(name="e2e-manyrounds", mode="interp", what="e2e", mix={"large:manyrounds": 1.0}, n=3 if total < 600 else 12,
+                      seed=[seed, tag, 7777], nwcap=nwcap))
     return specs + list(extra or [])
 
 
@@ -82,6 +87,8 @@ def unexpected(merged, out):
     ue = merged["counters"].get("unexpected_exceptions", [])
     if ue:
         out["inconclusive"].append("runs ended with exceptions outside the expected classes: %s" % ue[:3])
+    if merged["counters"].get("runs_with_a_forced_history_then_natural_rounds", 0) < 2:
+        out["inconclusive"].append("fewer than 2 runs continued on their own after a forced history of many rounds")
     anchors = merged["counters"].get("anchors", {})
     # anchor coverage is evidence only (it is sampled on the first cases of each shard); the deciding "was it reached" information
     # are the monitor counters with minimums in each check's finalize()
